@@ -416,6 +416,19 @@ def gen_emacros(rng):
             toks += rng.choice([[lit(rng, rng.randrange(0, 60))], ["lab"], ["lab", "+", "1"], [defs[0][1], "("] + sum([[lit(rng, 3), ","] for _ in defs[0][2]], [])[:-1] + [")"] if True else []])
         toks.append(")")
         use.append(("push", 32, X(rng, toks)))
+    # the SAME macro expanded twice (or three times) in ONE operand with DIFFERENT arguments: the invocations nested in
+    # its body (`f(3, $x)`) are syntactically identical in the two frames but denote different values
+    with_params = [d for d in defs if d[2]]
+    if with_params and rng.random() < 0.7:
+        callee = rng.choice(with_params)
+        def call(lo, hi):
+            out = [callee[1], "("]
+            for j in range(len(callee[2])):
+                out += ([","] if j else []) + [lit(rng, rng.randrange(lo, hi))]
+            return out + [")"]
+        a, b = call(0, 30), call(31, 90)
+        toks = rng.choice([a + [rng.choice(["+", "*"])] + b, b + ["+"] + a, a + ["+"] + b + ["+"] + a, ["(", *a, ")", "*", "3", "+", *b]])
+        use.append(("push", 32, X(rng, toks)))
     prog = (defs + use) if rng.random() < 0.5 else (use + defs)
     return prog
 
